@@ -435,6 +435,7 @@ _LAST_EARLY = {}
 def late_collect():
     import gc
     gc.collect()
+    gc.freeze()     # survivors (results kept by the sweep) need not be scanned again by the next call
 
 
 # ------------------------------------------------------------------ the real side
